@@ -175,6 +175,15 @@ func run(c *core.Case, st *core.CaseStats, seed int64) {
 			ms := int64(id) >> uint(eff)
 			r := int64(id) & (int64(1)<<uint(eff) - 1)
 			in := map[string]interface{}{"randBit": rb, "start_ms_ago": el, "id": int64(id), "window_ms": []int64{before, after}}
+			if el < 0 {
+				// start time in the future: only sign and random part are fixed by the property
+				if id < 0 || r < 0 || r >= int64(1)<<uint(eff) {
+					st.Add(core.Mismatch{Fn: c.Fn, Kind: "value", Case: c, Input: in, Expected: "a non-negative id", Actual: []int64{int64(id), r}})
+				}
+				prev = -1
+				time.Sleep(time.Millisecond)
+				continue
+			}
 			if id < 0 || ms < before || ms > after || r < 0 || r >= int64(1)<<uint(eff) {
 				st.Add(core.Mismatch{Fn: c.Fn, Kind: "value", Case: c, Input: in, Expected: fmt.Sprintf("ms in [%d,%d] above %d random bits", before, after, eff), Actual: []int64{ms, r}})
 			}
